@@ -32,6 +32,18 @@ H_NOT = '''void harness(void) { h_setup(); struct PTRef x = h_pick_bool();
 }
 '''
 HARNESS = {'mkImpl': ('Logic__mkImpl__vec_PTRef_RR', 'void harness(void) { h_setup(); struct PTRef x = h_pick_bool(), y = h_pick_bool();\n  struct PTRef d[3]; d[0] = x; d[1] = y; struct vec_PTRef v; v.data = d; v.sz = 2; v.cap = 3;\n  struct PTRef r = Logic__mkImpl__vec_PTRef_RR((struct Logic *)0, &v);\n  RES_OK(r); RES_BOOL(r);\n  __CPROVER_assert(den_of(r.x) == (!den_of(x.x) || den_of(y.x)), "mkImpl(x, y) denotes x => y");\n  OSMT_REACH("return");\n}\n', ()), 'mkXor': ('Logic__mkXor__vec_PTRef_RR', 'void harness(void) { h_setup(); struct PTRef x = h_pick_bool(), y = h_pick_bool();\n  struct PTRef d[3]; d[0] = x; d[1] = y; struct vec_PTRef v; v.data = d; v.sz = 2; v.cap = 3;\n  struct PTRef r = Logic__mkXor__vec_PTRef_RR((struct Logic *)0, &v);\n  RES_OK(r); RES_BOOL(r);\n  __CPROVER_assert(den_of(r.x) == (den_of(x.x) != den_of(y.x)), "mkXor(x, y) denotes x xor y");\n  OSMT_REACH("return");\n}\n', ()), 'mkIte': ('Logic__mkIte__vec_PTRef_RR', 'void harness(void) { h_setup(); struct PTRef c = h_pick_bool(), x = h_pick(), y = h_pick(); __CPROVER_assume(g_t[x.x].sort == g_t[y.x].sort);\n  struct PTRef d[3]; d[0] = c; d[1] = x; d[2] = y; struct vec_PTRef v; v.data = d; v.sz = 3; v.cap = 3;\n  struct PTRef r = Logic__mkIte__vec_PTRef_RR((struct Logic *)0, &v);\n  __CPROVER_assert(!__osmt_thrown, "a well-sorted ite is accepted");\n  RES_OK(r); __CPROVER_assert(g_t[r.x < NT ? r.x : 0].sort == g_t[x.x].sort, "the ite has the sort of its branches");\n  __CPROVER_assert(den_of(r.x) == (den_of(c.x) ? den_of(x.x) : den_of(y.x)), "mkIte(c, x, y) denotes if c then x else y");\n  OSMT_REACH("return");\n}\n', ('C14_SORTS', 'C14_MAPS', 'C14_ITE')), 'mkBinaryEq': ('opensmt::Logic::mkBinaryEq', 'void harness(void) { h_setup(); struct PTRef x = h_pick(), y = h_pick(); __CPROVER_assume(g_t[x.x].sort == g_t[y.x].sort);\n  struct PTRef r = Logic__mkBinaryEq((struct Logic *)0, x, y);\n  RES_OK(r); RES_BOOL(r);\n  __CPROVER_assert(den_of(r.x) == (den_of(x.x) == den_of(y.x)), "mkBinaryEq(x, y) denotes x = y (different constants denote different values)");\n  OSMT_REACH("return");\n}\n', ('C14_SORTS', 'C14_MAPS')), 'mkAnd': ('Logic__mkAnd__vec_PTRef_RR', 'void harness(void) { h_setup(); t_int n = nondet_uchar() & 3;\n  struct PTRef d[3]; t_bool want = 1;\n  for (int k = 0; k < 3; k++) if (k < n) { d[k] = h_pick_bool(); want = want && (den_of(d[k].x) != 0); }\n  struct vec_PTRef v; v.data = (struct PTRef *)0; v.sz = 0; v.cap = 0; vec_PTRef__capacity__int(&v, 3); for (int k = 0; k < 3; k++) if (k < n) v.data[k] = d[k]; v.sz = n; v.cap = 3;\n  struct PTRef r = Logic__mkAnd__vec_PTRef_RR((struct Logic *)0, &v);\n  RES_OK(r); RES_BOOL(r);\n  __CPROVER_assert((den_of(r.x) != 0) == want, "mkAnd(args) denotes the conjunction of its arguments (0 to 3 arguments, any repetition or complement among them)");\n  OSMT_REACH("return");\n}\n', ('C14_SORTCALL',)), 'mkOr': ('Logic__mkOr__vec_PTRef_RR', 'void harness(void) { h_setup(); t_int n = nondet_uchar() & 3;\n  struct PTRef d[3]; t_bool want = 0;\n  for (int k = 0; k < 3; k++) if (k < n) { d[k] = h_pick_bool(); want = want || (den_of(d[k].x) != 0); }\n  struct vec_PTRef v; v.data = (struct PTRef *)0; v.sz = 0; v.cap = 0; vec_PTRef__capacity__int(&v, 3); for (int k = 0; k < 3; k++) if (k < n) v.data[k] = d[k]; v.sz = n; v.cap = 3;\n  struct PTRef r = Logic__mkOr__vec_PTRef_RR((struct Logic *)0, &v);\n  RES_OK(r); RES_BOOL(r);\n  __CPROVER_assert((den_of(r.x) != 0) == want, "mkOr(args) denotes the disjunction of its arguments (0 to 3 arguments, any repetition or complement among them)");\n  OSMT_REACH("return");\n}\n', ('C14_SORTCALL',)), 'mkEq': ('Logic__mkEq__vec_PTRef_RR', 'void harness(void) { h_setup(); t_int n = 2 + (nondet_uchar() & 1);\n  struct PTRef d[3]; d[0] = h_pick(); d[1] = h_pick(); d[2] = h_pick();\n  __CPROVER_assume(g_t[d[0].x].sort == g_t[d[1].x].sort && (n < 3 || g_t[d[2].x].sort == g_t[d[0].x].sort));\n  t_bool want = den_of(d[0].x) == den_of(d[1].x) && (n < 3 || den_of(d[1].x) == den_of(d[2].x));\n  struct vec_PTRef v; v.data = (struct PTRef *)0; v.sz = 0; v.cap = 0; vec_PTRef__capacity__int(&v, 3); for (int k = 0; k < 3; k++) v.data[k] = d[k]; v.sz = n; v.cap = 3;\n  struct PTRef r = Logic__mkEq__vec_PTRef_RR((struct Logic *)0, &v);\n  RES_OK(r); RES_BOOL(r);\n  __CPROVER_assert((den_of(r.x) != 0) == want, "mkEq(args) denotes the chain a1 = a2 (= a3)");\n  OSMT_REACH("return");\n}\n', ('C14_SORTS', 'C14_MAPS', 'C14_SORTCALL'))}
+H_DISTINCT = '''void harness(void) { h_setup(); t_int n = nondet_uchar() & 3;
+  struct PTRef d[3]; d[0] = h_pick(); d[1] = h_pick(); d[2] = h_pick();
+  __CPROVER_assume(g_t[d[0].x].sort == g_t[d[1].x].sort && g_t[d[2].x].sort == g_t[d[0].x].sort);
+  t_int e0 = den_of(d[0].x), e1 = den_of(d[1].x), e2 = den_of(d[2].x);
+  t_bool want = n < 2 ? 1 : (n == 2 ? e0 != e1 : (e0 != e1 && e0 != e2 && e1 != e2));
+  struct vec_PTRef v; v.data = (struct PTRef *)0; v.sz = 0; v.cap = 0; vec_PTRef__capacity__int(&v, 3); for (int k = 0; k < 3; k++) v.data[k] = d[k]; v.sz = n;
+  struct PTRef r = Logic__mkDistinct((struct Logic *)0, &v);
+  RES_OK(r); RES_BOOL(r);
+  __CPROVER_assert((den_of(r.x) != 0) == want, "mkDistinct(args) denotes pairwise difference of its arguments (0 to 3 arguments, repetitions allowed)");
+  OSMT_REACH("return");
+}
+'''
 PROVES = {'mkNot': 'mkNot(x) is equivalent to (not x)', 'mkImpl': 'mkImpl(x,y) is equivalent to (=> x y)', 'mkXor': 'mkXor(x,y) is equivalent to (xor x y)', 'mkIte': 'mkIte(c,x,y) is equivalent to (ite c x y)',
           'mkBinaryEq': 'mkBinaryEq(x,y) is equivalent to (= x y)', 'mkAnd': 'mkAnd(args) is equivalent to (and args)', 'mkOr': 'mkOr(args) is equivalent to (or args)', 'mkEq': 'mkEq(args) is equivalent to the chain (= a1 a2 a3)'}
 def jobs(tier):
@@ -42,6 +54,9 @@ def jobs(tier):
         cn = {'mkOr': 'Logic__mkOr__vec_PTRef_RR', 'mkAnd': 'Logic__mkAnd__vec_PTRef_RR', 'mkBinaryEq': 'opensmt::Logic::mkBinaryEq'}
         J.append(bjob(nm, root, h, proves=PROVES[nm], defines=tuple(d for d in defs if not (use and d in ('C14_SORTCALL', 'C14_MAPS', 'C14_SORTS'))) + tuple('C14_USE_' + u for u in use) + (('C14_NO_SYMREF',) if nm == 'mkEq' else ()), extra_stubs=tuple(cn[u] for u in use), weight=(30 if nm in ('mkAnd', 'mkOr') else 1)))
     # neg_job() (ArithLogic::mkNeg over an arena with integer denotations, contracts/C14/arith.h) is NOT registered: it does not finish within 30 min
+    J.append(bjob('mkDistinct', 'opensmt::Logic::mkDistinct', H_DISTINCT, defines=('C14_SORTS', 'C14_DISTINCT', 'C14_USE_mkEq', 'C14_USE_mkAnd', 'C14_TERMSORT_SORTS'),
+                  extra_stubs=('Logic__mkEq__vec_PTRef_RR', 'Logic__mkAnd__vec_PTRef_RR', 'opensmt::PtStore::lookupSymbol', 'opensmt::Logic::isBooleanOperator', 'opensmt::PtStore::hasCplxKey', 'opensmt::PtStore::getFromCplxMap',
+                               'opensmt::PtStore::newTerm', 'opensmt::PtStore::addToCplxMap'), proves='mkDistinct(args) is equivalent to (distinct args)'))
     return J + C27.jobs_fold(4)       # constant folding of div / mod against Euclidean semantics (shared with C27, bounded: scaled width)
 ARITH_STUBS = ('opensmt::Logic::mkFun', 'opensmt::ArithLogic::mkConst', 'opensmt::ArithLogic::isNeg', 'opensmt::Logic::getSymRef', 'opensmt::Logic::isConstant', 'opensmt::ArithLogic::getNumConst', 'opensmt::Logic::getSortRef',
                'opensmt::ArithLogic::isPlus', 'opensmt::ArithLogic::isTimes', 'opensmt::Logic::getPterm', 'opensmt::ArithLogic::getMinusOneForSort', 'opensmt::ArithLogic::isNumVarLike', 'opensmt::ArithLogic::getTimesForSort',
